@@ -255,6 +255,12 @@ the line was already full -/
 example : wrap 5 "  ab cdefghij  k".toList = ["  ab ".toList, "cdefg".toList, "hij".toList, "k".toList] := by
   decide +kernel
 
+/-- known finding D28 (not covered by the theorems above, whose cells are tag-free): `textwrap`
+is not format-aware, the witness cell is cut inside its style tag at the column width 16 -/
+example : wrap 16 "aaaa <fg=red;options=bold>cccc</> dddd eeee".toList
+    = ["aaaa <fg=red;opt".toList, "ions=bold>cccc</".toList, "> dddd eeee".toList] := by
+  decide +kernel
+
 /-- a rendered table (ascii style, header, 2 columns, terminal width 16, indentation 1) -/
 example :
     okIs (render exactShare Clikit.Gen.C14.ascii [0, 1]
